@@ -311,6 +311,10 @@ def b_str(I, a, k):
         return x
     if isinstance(x, (int, float, bool, type(None))):
         return str(x)
+    if isinstance(x, (Ref, tuple)):
+        c = Mo._concrete_py(I, x)
+        if c is not UNDEF:
+            return str(c)                   # a fully concrete container: CPython's own text
     r = SStr(I.st.fresh_name('str'), nonempty=True)
     if Mo.is_list(x):
         r.prefix = 'array(' if x.nd else '['          # str / repr of a list or array: unknown text with a known first character
